@@ -1060,8 +1060,56 @@ impl C14 {
             let k = match op {
                 Op::Step(k) => *k,
                 other => {
-                    let _ = guarded(|| exec_op(&mut n, other));
-                    let _ = guarded(|| exec_op(&mut s, other));
+                    // configuration ops are applied to both; run-style calls are compared like one big step:
+                    // unless strict mode rejected something on the way, both machines must have stopped in the
+                    // same place with the same state (breakpoints, limits and step_over/step_out included)
+                    let _ = (n.log.take(), s.log.take());
+                    let pc = n.sim.pc;
+                    let rn = match guarded(|| exec_op(&mut n, other)) {
+                        Ok(r) => r,
+                        Err(p) => return fail(steps, "panic-in-step", p),
+                    };
+                    let rs = match guarded(|| exec_op(&mut s, other)) {
+                        Ok(r) => r,
+                        Err(p) => return fail(steps, "panic-in-step", p),
+                    };
+                    let (OpRes::Drive(rn), OpRes::Drive(rs)) = (rn, rs) else { continue };
+                    steps += 1;
+                    out.bump("probe.run-style-call-compared");
+                    let (ln, ls) = (n.log.take(), s.log.take());
+                    if let Err(k) = rs {
+                        if is_strict_err(k) {
+                            out.bump("fired.garbage-read");
+                            if fully_init {
+                                return fail(steps, "strict-error-on-initialised-machine", format!("{other:?} from x{pc:04X} failed with {k} although every memory word and register is initialised"));
+                            }
+                            out.sim_time = steps * 2;
+                            out.trace = fp.0;
+                            out.fingerprint = Some(fp.0);
+                            return None;
+                        }
+                    }
+                    if rn != rs {
+                        return fail(steps, "strict-changed-result", format!("{other:?} from x{pc:04X}: non-strict {rn:?}, strict {rs:?}"));
+                    }
+                    if n.sim.pc != s.sim.pc || n.sim.psr().get() != s.sim.psr().get() || n.sim.instructions_run != s.sim.instructions_run || n.sim.hit_breakpoint() != s.sim.hit_breakpoint() {
+                        return fail(steps, "strict-changed-state", format!("after {other:?} from x{pc:04X}: pc/psr/count/hit_breakpoint non-strict (x{:04X}, x{:04X}, {}, {}) strict (x{:04X}, x{:04X}, {}, {})", n.sim.pc, n.sim.psr().get(), n.sim.instructions_run, n.sim.hit_breakpoint(), s.sim.pc, s.sim.psr().get(), s.sim.instructions_run, s.sim.hit_breakpoint()));
+                    }
+                    for k in 0..8 {
+                        if n.sim.reg_file[reg(k)] != s.sim.reg_file[reg(k)] {
+                            return fail(steps, "strict-changed-state", format!("after {other:?} from x{pc:04X}: R{k} differs"));
+                        }
+                    }
+                    if ln != ls {
+                        return fail(steps, "strict-changed-device-io", format!("after {other:?} from x{pc:04X}: device calls differ"));
+                    }
+                    let _ = (n.sim.observer.take_mem_accesses().count(), s.sim.observer.take_mem_accesses().count());
+                    for a in 0..=0xFFFFu16 {
+                        if n.sim.mem[a] != s.sim.mem[a] {
+                            return fail(steps, "strict-changed-state", format!("after {other:?} from x{pc:04X}: mem[x{a:04X}] differs"));
+                        }
+                    }
+                    fp.add_str(rs.err().unwrap_or("ok"));
                     continue;
                 }
             };
@@ -1293,7 +1341,12 @@ impl C09S {
                 if n_refused {
                     out.bump("probe.refused-in-sync");
                     if let Err(k) = rs {
-                        if is_strict_err(k) && !matches!(k, "StrictMemAddrUninit" | "StrictPCCurrUninit") {
+                        // StrictMemAddrUninit precedes the access only where an address is formed from a
+                        // register or a pointer cell (LDR, STR, LDI, STI); a user-mode RTI is refused
+                        // before its stack pointer is looked at
+                        let addr_formed = matches!(instr.map(|w| w >> 12), Some(6) | Some(7) | Some(10) | Some(11));
+                        let allowed = k == "StrictPCCurrUninit" || (k == "StrictMemAddrUninit" && addr_formed);
+                        if is_strict_err(k) && !allowed {
                             return fail(steps, "strict-masks-violation", format!("user-mode step at x{pc:04X} (word {instr:04X?}) is refused by the non-strict machine ({}), the strict machine reports {k} instead", if vectored { "vectored to the exception handler".to_string() } else { format!("{rn:?}") }));
                         }
                     }
@@ -1361,6 +1414,165 @@ impl Check for C09S {
         let mut s = gen_adversarial(r);
         s.flags.ignore_privilege = false;
         s.profile = "C09-strict".into();
+        s
+    }
+    fn execute(&self, s: &MScn) -> Outcome {
+        let mut out = Outcome::default();
+        let v = self.run(s, &mut out);
+        out.violation = v;
+        out
+    }
+    fn shrink(&self, s: &MScn) -> Vec<MScn> {
+        shrink_mscn(s)
+    }
+}
+
+// ===========================================================================
+// C09 run-style arm — a violation is reported whichever call executes the instruction
+
+/// The lockstep arm drives the machine with `step_in` only. Here the same adversarial block runs under
+/// `run()` with breakpoints set on and around the attacking instructions (resumed after every
+/// breakpoint stop), next to a twin stepped with `step_in`: when the stepped twin's first stop is an
+/// access or privilege violation, the run-style history must end with the same error at the same
+/// instruction and with the same registers.
+pub struct C09R;
+impl C09R {
+    fn run(&self, scn: &MScn, out: &mut Outcome) -> Option<Violation> {
+        let objs = match assemble_all(scn) {
+            Some(o) => o,
+            None => {
+                out.bump("harness.unbuildable");
+                return None;
+            }
+        };
+        let mk = || build_on_with(scn, scn.entropy, objs.clone());
+        let (mut a, mut b) = match (mk(), mk()) {
+            (Ok(Ok(a)), Ok(Ok(b))) => (a, b),
+            (Err(p), _) | (_, Err(p)) => return Some(Violation { class: "panic-in-setup".into(), step: 0, detail: p }),
+            _ => {
+                out.bump("harness.unbuildable");
+                return None;
+            }
+        };
+        for op in &scn.ops {
+            if matches!(op, Op::BpAdd(_)) {
+                let _ = guarded(|| exec_op(&mut a, op));
+            }
+        }
+        let fail = |st: u64, c: &str, d: String| Some(Violation { class: c.to_string(), step: st, detail: d });
+        // stepped twin
+        let mut end_b: Option<(&'static str, u16)> = None;
+        let mut steps = 0u64;
+        // run() keeps the clock-enable bit (MCR) set while instructions execute; step_in leaves it as it
+        // is. A program can see the difference (the OS reads xFFFE when PUTS is pointed at it), so the
+        // stepped twin runs with the bit set as well.
+        b.sim.mcr().store(true, std::sync::atomic::Ordering::Relaxed);
+        for _ in 0..scn.max_ticks {
+            // virtual HALT ends the program (step_in reports it as Ok)
+            if (0x3000..0xFE00).contains(&b.sim.pc) && b.sim.mem[b.sim.pc].get() == 0xF025 {
+                break;
+            }
+            steps += 1;
+            match guarded(|| b.sim.step_in()) {
+                Err(p) => return fail(steps, "panic-in-step", p),
+                Ok(Err(e)) => {
+                    end_b = Some((err_kind(&e), b.sim.prefetch_pc()));
+                    break;
+                }
+                Ok(Ok(())) => {}
+            }
+        }
+        let Some((kb, pcb)) = end_b else {
+            out.sim_time = steps;
+            return None;
+        };
+        if !matches!(kb, "AccessViolation" | "PrivilegeViolation") {
+            out.sim_time = steps;
+            return None;
+        }
+        out.bump("probe.stepped-twin-violation");
+        // run-style history
+        let mut end_a: Option<(&'static str, u16)> = None;
+        let mut stops = 0u64;
+        for _ in 0..(scn.max_ticks as usize + 8) {
+            match guarded(|| a.sim.run()) {
+                Err(p) => return fail(steps, "panic-in-step", p),
+                Ok(Err(e)) => {
+                    end_a = Some((err_kind(&e), a.sim.prefetch_pc()));
+                    break;
+                }
+                Ok(Ok(())) => {
+                    if a.sim.hit_breakpoint() {
+                        stops += 1;
+                        out.bump("probe.breakpoint-stop");
+                        continue;
+                    }
+                    break;
+                }
+            }
+        }
+        if std::env::var_os("VERIF_DEBUG").is_some() {
+            eprintln!("C09R: ops {:?} base x{:04X} stepped-end ({kb}, x{pcb:04X}) after {steps} steps; run-end {end_a:?} stops {stops} bps {}", scn.ops, scn.pc, a.sim.breakpoints.len());
+        }
+        out.sim_time = steps * 2;
+        let mut fp = Fp::new();
+        fp.add_str(kb);
+        fp.add(pcb as u64);
+        fp.add(stops);
+        out.trace = fp.0;
+        if end_a != Some((kb, pcb)) {
+            return fail(steps, "violation-not-reported", format!("stepping the block ends with {kb} at x{pcb:04X} (step {steps}); the same block under run() with breakpoints {:?}, resumed after each stop ({stops} stops), ends with {end_a:?} (pc x{:04X}, hit_breakpoint {})", scn.ops.iter().filter(|o| matches!(o, Op::BpAdd(_))).collect::<Vec<_>>(), a.sim.pc, a.sim.hit_breakpoint()));
+        }
+        for k in 0..8 {
+            if a.sim.reg_file[reg(k)] != b.sim.reg_file[reg(k)] {
+                return fail(steps, "violation-state-differs", format!("both histories end with {kb} at x{pcb:04X} but R{k} differs"));
+            }
+        }
+        for x in (0u16..0x3000).chain(0xFE00..=0xFFFF) {
+            if a.sim.mem[x] != b.sim.mem[x] && x != 0xFFFE {
+                return fail(steps, "violation-state-differs", format!("both histories end with {kb} at x{pcb:04X} but mem[x{x:04X}] outside user space differs"));
+            }
+        }
+        if stops > 0 {
+            out.fingerprint = Some(fp.0 ^ 0x9);
+        }
+        None
+    }
+}
+impl Check for C09R {
+    type Scn = MScn;
+    fn id(&self) -> &'static str {
+        "C09r"
+    }
+    fn meta(&self) -> Meta {
+        Meta { rule: "run-style arm of C09", components_real: &["Simulator::run + breakpoints", "Simulator::step_in"], components_stub: &["ClockDev/ScriptDev/Contended"], assumptions: &[], level: "exploration", enumerated: "none" }
+    }
+    fn quick_runs(&self) -> u64 {
+        6_000
+    }
+    fn entropy(&self, s: &MScn) -> u64 {
+        s.entropy
+    }
+    fn generate(&self, r: &mut Rng, _t: Tier, _i: u64) -> MScn {
+        let mut s = gen_adversarial(r);
+        s.flags.ignore_privilege = false;
+        s.flags.real_traps = false;
+        s.profile = "C09-run".into();
+        // no interrupt sources: the two histories poll the devices at the same boundaries, but a
+        // breakpoint stop in the middle of a handler is C13's subject, not this arm's
+        s.devs.retain(|d| !matches!(d, DevSpec::Script(x) if !x.raises.is_empty() || !x.externals.is_empty() || !x.mcr_clear.is_empty()));
+        s.events.retain(|(_, e)| matches!(e, HostEv::PushKeys(_)));
+        let base = s.pc;
+        let n = s.pokes.first().map(|p| p.1.len()).unwrap_or(4) as u64;
+        s.ops.clear();
+        for _ in 0..1 + r.below(4) {
+            let bp = match r.below(6) {
+                0 => BpS::Pc(*r.pick(&[0x0000u16, 0x2FFF, 0xFE00, 0xFE02, 0xFFFF, 0x0200])),
+                _ => BpS::Pc(base.wrapping_add(r.below(n + 1) as u16)),
+            };
+            s.ops.push(Op::BpAdd(bp));
+        }
+        s.ops.push(Op::Run);
         s
     }
     fn execute(&self, s: &MScn) -> Outcome {
